@@ -23,7 +23,7 @@ MOD = "pv.props.c12"
 STYLES = ["positional", "keyword", "mixed"]
 RETURNS = ["array", "tuple", "dict"]
 SITES = ["single", "repeated_swapped", "nested2", "nested3", "caller_named_like_params", "args_are_exprs",
-         "same_name_other_body", "many_outputs", "pretagged_nested"]
+         "same_name_other_body", "many_outputs", "pretagged_nested", "passthrough_of_call"]
 
 
 def _has_call(dag):
@@ -95,6 +95,19 @@ def call_job(prog: str, style: str, ret: str, site: str) -> JobOut:
                 return tuple(outs12)
             fmany.__name__ = "fmany"
             called, direct = as_dict(call(fmany, ins)), as_dict(fmany(**ins))
+        elif site == "passthrough_of_call":
+            # a function that hands one of its arguments back unchanged, called on the result of another traced call;
+            # the caller uses the passed-through result
+            c0, d0 = as_dict(call(f, ins)), as_dict(f(**ins))
+            k0 = sorted(c0)[0]
+
+            def fpt(a):
+                if ret == "dict":
+                    return {"twice": a * 2, "same": a}
+                return (a * 2, a)
+            c1, d1 = as_dict(pt.trace_call(fpt, c0[k0])), as_dict(fpt(d0[k0]))
+            called = {f"p{k}": v for k, v in c1.items()} | {"use": c1[sorted(c1)[-1]] + 1}
+            direct = {f"p{k}": v for k, v in d1.items()} | {"use": d1[sorted(d1)[-1]] + 1}
         elif site == "same_name_other_body":
             # two *different* functions that carry the same Python name, called in one graph
             def f2(*a, **kw):
@@ -196,9 +209,9 @@ def jobs(tier: str, seed: int):
         for style in STYLES:
             for ret in RETURNS:
                 si, ri = STYLES.index(style), RETURNS.index(ret)
-                specials = ["same_name_other_body", "many_outputs", "pretagged_nested"]
-                sites = SITES if th else [SITES[(i + si + ri) % len(SITES)], "single", specials[(i + si + ri) % 3]] + (
-                    [specials[(i + si + ri + 1) % 3]] if (i + ri) % 3 == 0 else [])
+                specials = ["same_name_other_body", "many_outputs", "pretagged_nested", "passthrough_of_call"]
+                sites = SITES if th else [SITES[(i + si + ri) % len(SITES)], "single", specials[(i + si + ri) % 4]] + (
+                    [specials[(i + si + ri + 1) % 4]] if (i + ri) % 3 == 0 else [])
                 for site in dict.fromkeys(sites):
                     J.append(Job(MOD, "call_job", {"prog": P.name, "style": style, "ret": ret, "site": site},
                                  jid=f"{P.name}/{style}/{ret}/{site}", hard_timeout=900))
